@@ -473,6 +473,7 @@ def server_leg(ctx, recs):
             finally:
                 env.close()
     ctx.leg('C-server', runs=k)
+    memory_node_leg(ctx)
 
 
 # ----------------------------------------------------------------------------------------------- real <-> real
@@ -614,6 +615,56 @@ def growth_cache_concurrent(ctx):
         print('NOTE: (beyond the listed properties) cache_concurrent can run two executions of the same call at once: a waiter that '
               'resumes late pops the entry of a NEWER execution (see specs/CacheConcurrent.tla; a guarded pop restores OnlyOnce)')
 
+
+
+def memory_node_leg(ctx):
+    """a serving node that does NOT keep blob files (save_blobs off): a blob it downloaded into memory and handed to its reader is
+    gone; whatever it then tells a peer, it must not OFFER that blob (availability) without being able to send it, and must send no
+    bytes under its name"""
+    from .lbryenv import StorageEnv
+    from lbry.blob_exchange.server import BlobServerProtocol
+    rng = ctx.rng
+    n = 0
+    for size in (1, 300, 70_000):
+        d = ctx.mkdir(f'c10m-{size}')
+        env = StorageEnv(d, save_blobs=False)
+        try:
+            env.run(env.blob_manager.setup())
+            content = bytes(rng.getrandbits(8) for _ in range(min(size, 2048)))
+            content = (content * (size // len(content) + 1))[:size]
+            h = hashlib.sha384(content).hexdigest()
+            with env.loop:
+                blob = env.blob_manager.get_blob(h, size)
+                w = blob.get_blob_writer('5.5.5.5', 3333)
+                w.write(content)
+            env.loop.drain(jobs=True, timers=False, limit=200_000)
+            if not blob.get_is_verified():
+                raise MachineryError('the in-memory blob did not verify')
+            with env.loop, blob.reader_context() as reader:       # its one read (what the stream decrypter does)
+                reader.read()
+            env.loop.drain(jobs=True, timers=False, limit=200_000)
+            with env.loop:
+                proto = BlobServerProtocol(env.loop, env.blob_manager, 'bQEaw42GXsgCAGio1nxFncJSyRmnztSCjP', idle_timeout=30.0, transfer_timeout=60.0)
+                tr = FakeTransport(env.loop, proto, peername=('9.8.7.6', 5555))
+                proto.connection_made(tr)
+                proto.data_received(request_bytes(h))
+            env.loop.drain(jobs=True, timers=False, limit=400_000)
+            sent = tr.take()
+            n += 1
+            ctx.count(('memory-node', size), nontrivial=True)
+            verdicts = parse_sent(sent, {h: content})
+            offered = any(h in (v.get('json') or {}).get('available_blobs', []) for v in verdicts) or (b'"available_blobs": ["' + h.encode()) in sent
+            sent_blob = any(v['kind'] == 'blob' and v.get('payload_right') and v.get('length_right') for v in verdicts)
+            stray = any(v['kind'] == 'blob' and not (v.get('payload_right') and v.get('length_right')) for v in verdicts)
+            if stray:
+                ctx.violation('memory-node-sends-wrong-bytes', f'a node without blob files sent bytes under {h[:12]}.. that are not the blob', {'size': size, 'sent': sent[:300].hex()})
+            elif offered and not sent_blob:
+                ctx.violation('server-offers-blob-it-cannot-send', f'a node without blob files lists {h[:12]}.. (consumed by its one read) as available '
+                              f'but sends no blob', {'size': size, 'sent': sent[:300].decode('latin-1')})
+        finally:
+            env.close()
+            shutil.rmtree(d, ignore_errors=True)
+    ctx.leg('C-server-memory-node', runs=n)
 
 def classify(rec, inv):
     if rec['kind'] == 'client':
